@@ -1,0 +1,52 @@
+//go:build verif
+
+package mpx
+
+import (
+	"runtime"
+	"sync/atomic"
+	"time"
+)
+
+// Verification hooks (build tag `verif`): seeded yields at the points where the library's
+// goroutines race with each other, so that scenario runs widen the race windows deterministically
+// per seed. With the tag off verifYield is an empty function.
+
+var (
+	verifYieldOn    atomic.Bool
+	verifYieldState atomic.Uint64
+	verifYieldProb  atomic.Uint32 // yield when rnd%1000 < prob
+	verifYieldSleep atomic.Int64  // nanoseconds; 0 = runtime.Gosched()
+	verifYieldCount atomic.Int64
+)
+
+// VerifSetYield enables (prob > 0) or disables the seeded yields.
+func VerifSetYield(seed uint64, probPermille uint32, sleep time.Duration) {
+	verifYieldState.Store(seed*0x9E3779B97F4A7C15 + 1)
+	verifYieldProb.Store(probPermille)
+	verifYieldSleep.Store(int64(sleep))
+	verifYieldOn.Store(probPermille > 0)
+}
+
+// VerifYieldCount returns how many yields were taken.
+func VerifYieldCount() int64 { return verifYieldCount.Load() }
+
+func verifYield(point string) {
+	if !verifYieldOn.Load() {
+		return
+	}
+	// splitmix64 step on a shared state
+	z := verifYieldState.Add(0x9E3779B97F4A7C15)
+	z = (z ^ (z >> 30)) * 0xBF58476D1CE4E5B9
+	z = (z ^ (z >> 27)) * 0x94D049BB133111EB
+	z ^= z >> 31
+	if uint32(z%1000) >= verifYieldProb.Load() {
+		return
+	}
+	verifYieldCount.Add(1)
+	if d := verifYieldSleep.Load(); d > 0 {
+		time.Sleep(time.Duration(d))
+	} else {
+		runtime.Gosched()
+	}
+}
